@@ -192,7 +192,7 @@ def dropPre (s : Streams) (k : Nat) : Streams :=
   let s := if (s.stream k).refCount > 0 then s else s.panic "assertion failed: self.ref_count > 0"
   let s := s.modStream k fun st => { st with refCount := st.refCount - 1 }
   let st := s.stream k
-  if st.refCount == 0 && st.isClosed then s.notifyTask else s
+  if (st.refCount == 0 && st.isClosed) || s.refs == 1 then s.notifyTask else s
 
 /-- the loop over the promised streams in `drop_stream_ref` -/
 def dropFold (ppp : List Nat) (s : Streams) : Streams :=
